@@ -77,6 +77,21 @@ func OriginalModule(m Meta) *Module {
 	}
 }
 
+// DefiningModule is the module whose name and namespace the node has in data (RFC7950
+// Sec 7.2.2: what a submodule defines belongs to the namespace of the module it belongs to).
+// OriginalModule answers with the submodule itself, which is right for looking up prefixes.
+func DefiningModule(m Meta) *Module {
+	mod := OriginalModule(m)
+	for mod != nil && mod.belongsTo != nil {
+		parent, valid := mod.parent.(*Module)
+		if !valid || parent == nil || parent == mod {
+			break
+		}
+		mod = parent
+	}
+	return mod
+}
+
 func splitIdent(ident string) (string, string) {
 	i := strings.IndexRune(ident, ':')
 	if i < 0 {
